@@ -352,7 +352,9 @@ def check_auth(request, response, realm, users, encrypt=None):
         # validate the Authorization by re-computing it here
         # and compare it with what the user-agent provided
         try:
-            verified = password is not None and _httpauth.checkResponse(
+            # (a look-up may say "no such user" with None, False, 0, ...: only
+            # text is a password)
+            verified = isinstance(password, (str, bytes)) and _httpauth.checkResponse(
                 ah, password, method=request.method, encrypt=encrypt, realm=realm
             )
         except Exception:
